@@ -197,7 +197,7 @@ class Check:
 
     # ------------------------------------------------------------------ stage 2b: translator tie (second, independent tie)
     FAMILY_SOURCES = {"TMsg": ["CCMsg", "PNMsgFile"], "TCC": ["CCScan"], "TPN": ["PNScan"], "TPoll": ["PollScan"],
-                      "TShort": ["ShortMsg", "FactoryDefaults"], "TStruct": ["StructuredImpl", "RawImpl"], "TBits": ["BitUtil", "ShortMsg"], "TCn": ["CnPredicates", "ShortMsg"], "TConv": ["Macros"]}
+                      "TShort": ["ShortMsg", "FactoryDefaults"], "TStruct": ["StructuredImpl", "RawImpl"], "TBits": ["BitUtil", "ShortMsg"], "TCn": ["CnPredicates", "ShortMsg"], "TConv": ["Macros"], "TUtil": ["TestUtil"]}
 
     def translated(self, families):
         """Regenerate the Lean translation of the source files behind `families` (tools/rs2lean.py) and check the
